@@ -33,7 +33,8 @@ ASSUMPTIONS = [
     "operation codes without a fixed CDB length are the groups 3, 6 and 7 (60h-7Fh, C0h-FFh) per SAM",
     "residue a refused construction may leave in shared state is judged by C09, not here",
 ]
-REQUIRED_PROBES = ["refused_blocksize", "refused_opcode", "refused_service_action", "refused_xcopy", "refused_transport_id", "valid_between"]
+ALSO_OPTIMIZED = True      # the whole check is repeated under `python -O` (a refusal written as an assert vanishes there)
+REQUIRED_PROBES = ["refused_blocksize", "refused_opcode", "refused_service_action", "refused_xcopy", "refused_transport_id", "valid_between", "refusal_inside_with"]
 
 BS_METHODS = ["read10", "read12", "read16", "write10", "write12", "write16", "writesame10", "writesame16", "atapassthrough12", "atapassthrough16"]
 NO_FIXED_LEN = set(range(0x60, 0x80)) | set(range(0xC0, 0x100))
@@ -74,13 +75,16 @@ def gen_invalid(rng, cfg):
         what = rng.choice(["target_key", "segment_key", "segment_key", "segment_key_b2s", "target_code", "segment_code", "device_type", "lu_id_type"])
         # junk keys: invented names and names that other descriptor formats define (they are unknown to *this* format)
         junk = rng.choice(["bogus", "pad2", "x"]) if what != "segment_key" else rng.choice(["bogus", "x", "stream_device_transfer_length", "block_device_logical_block_address", "fixed", "pad"] + (["fco"] if ver == 4 else []))
+        if rng.random() < 0.35:
+            # near misses of real key names: pieces, prefixes, other spellings, the empty string, a non-string key
+            junk = rng.choice(["length", "descriptor", "descriptor_length_", "type_code", "d", "_", "", "DC", "dc ", "block", "id", {"$int": 7}])
         if what == "segment_key_b2s":
             junk = rng.choice(["dc", "fco", "source_block_device_logical_block_address", "bogus"])
         return {"op": "invalid", "kind": "xcopy", "ver": ver, "what": what, "junk": junk, "falsy": rng.choice([None, None, "zero", "false", "empty", "name"]),
                 "dt": rng.choice([4, 7, 2, 6, 8, 0x1F, rng.randrange(64)]),
                 "code": rng.choice([0x10, 0x7F, 0xDF, 0xFF, 0x55]), "nvalid": rng.randrange(3)}
     op = {"op": "invalid", "kind": "transport_id", "what": rng.choice(["sid_no_format", "format_no_sid"]),
-          "sa": rng.choice([0, 7]), "pos": rng.randrange(2)}
+          "sa": rng.choice([0, 7]), "pos": rng.randrange(2), "same_name": rng.random() < 0.4, "n_good": rng.choice([1, 1, 2])}
     if op["what"] == "format_no_sid":
         op["fmt"] = rng.choice([1, 1, 1, True])
         op["sid"] = rng.choice(["absent", "absent", "none", "empty", "emptybytes", "zero"])   # every way of giving no session id
@@ -106,6 +110,9 @@ def generate(rng, idx, tier):
             ops.append({"op": "set_blocksize", "v": bs})
         elif r < 0.55:
             ops.append(gen_invalid(rng, cfg))
+            if rng.random() < 0.12:
+                # the request is made inside `with SCSI(device) as s:` over an application-defined device whose close() returns a value
+                ops[-1]["in_with"] = rng.choice([True, 1, "closed"])
         else:
             m = rng.choice(VALID)
             ops.append(dict(op="valid", **F.gen_call(rng, m, cfg)))
@@ -165,16 +172,19 @@ def xcopy_kwargs(op):
     targets = [mk(F.TGT_DESC) for _ in range(max(op["nvalid"], 1))]
     segs = [mk(F.SEG_B2B) for _ in range(max(op["nvalid"], 1))]
     w = op["what"]
+    junk = op.get("junk")
+    if isinstance(junk, dict):
+        junk = junk["$int"]
     if w == "target_key":
-        targets[-1][op["junk"]] = 1
+        targets[-1][junk] = 1
     elif w == "segment_key":
-        segs[-1][op["junk"]] = 1
+        segs[-1][junk] = 1
     elif w == "segment_key_b2s":
         b2s = {"descriptor_type_code": 0x00, "cat": 1, "stream_device_transfer_length": 8, "block_device_number_of_blocks": 4,
                "block_device_logical_block_address": 10}
         b2s["source_cscd_descriptor_id" if spc5 else "source_target_descriptor_id"] = 0
         b2s["destination_cscd_descriptor_id" if spc5 else "destination_target_descriptor_id"] = 1
-        b2s[op["junk"]] = 1
+        b2s[junk] = 1
         segs[-1] = b2s
     elif w in ("target_code", "segment_code") and op.get("exact"):
         (targets if w == "target_code" else segs)[-1]["descriptor_type_code"] = op["code"]
@@ -226,7 +236,14 @@ def execute(prog):
         nonlocal sent_valid
         ev0, dl0, st0 = len(WORLD.events), len(WORLD.deliveries), lu.state_digest()
         log0 = len(lu.log)
-        kind, val = worlds.outcome_of(fn)
+        if WITH:
+            def in_block(fn=fn, mgr=WITH[0]):
+                with mgr:
+                    return fn()
+            kind, val = worlds.outcome_of(in_block)
+            WORLD.probe("refusal_inside_with")
+        else:
+            kind, val = worlds.outcome_of(fn)
         seam = [e["kind"] for e in WORLD.events[ev0:]]
         ok_exc = kind == "exc" and (type(val).__name__ == want if isinstance(want, str) else isinstance(val, want))
         wname = want if isinstance(want, str) else want.__name__
@@ -248,9 +265,19 @@ def execute(prog):
                 WORLD.probe("valid_between")
         return "refused" if ok_exc else ("ok" if kind == "ok" else type(val).__name__)
 
+    WITH = []
+    outer = scsi
     for i, op in enumerate(prog["ops"]):
         WORLD.ev("op", i=i, op=op["op"], what=op.get("kind"))
         name = op["op"]
+        del WITH[:]
+        scsi = outer
+        if op.get("in_with") and name == "invalid" and op.get("kind") != "opcode":
+            from props.c13 import PlainDevice as _PD
+            d2 = _PD(E.sbc, lu, 0)
+            d2.close_returns = op["in_with"]
+            scsi = SCSI(d2, blocksize=outer.blocksize)      # the closures below see this facade
+            WITH.append(scsi)
         if name == "set_blocksize":
             scsi.blocksize = op["v"]
             summary.append("bs=%d" % op["v"])
@@ -318,11 +345,13 @@ def execute(prog):
                 tid = {"protocol_id": 5, "iscsi_name": "iqn.2026-10.verif:a", "tpid_format": op.get("fmt", 1)}
                 if op.get("sid", "absent") != "absent":
                     tid["iscsi_initiator_session_id"] = {"none": None, "empty": "", "emptybytes": b"", "zero": 0}[op["sid"]]
-            good = {"protocol_id": 5, "iscsi_name": "iqn.2026-10.verif:ok"}
+            # the other, valid entries of the list; optionally for the same initiator port name as the inconsistent one
+            good = {"protocol_id": 5, "iscsi_name": "iqn.2026-10.verif:a" if op.get("same_name") else "iqn.2026-10.verif:ok"}
             if op["sa"] == 7:
                 fn = lambda: scsi.persistentreserveout(7, reservation_key=1, service_action_reservation_key=2, transport_id=tid)
             else:
-                tids = [good, tid] if op["pos"] else [tid, good]
+                goods = [dict(good) for _ in range(op.get("n_good", 1))]
+                tids = goods + [tid] if op["pos"] else [tid] + goods
                 fn = lambda: scsi.persistentreserveout(0, service_action_reservation_key=2, spec_i_pt=1, transport_ids=tids)
             summary.append(refused(fn, ValueError, "transport_id", "refused_transport_id", op["what"]))
     out, sigs = [], set()
